@@ -28,11 +28,13 @@ open Femio.C05
 open Femio.C05K
 #print axioms split_join
 #print axioms C05_keys_attr_roundtrip
+#print axioms C05_keys_time_series_flag_roundtrip
 #print axioms C05_keys_roundtrip
 #print axioms C05_keys_elements_roundtrip
 #print axioms C05_keys_elemental_collection_roundtrip
 #print axioms C05_keys_counterexample_substring_type
 #print axioms C05_keys_counterexample_ids_in_name
+#print axioms C05_keys_counterexample_no_flag
 #print axioms C05_read_opt_default
 #print axioms C05_read_opt_inv
 #print axioms C05_read_opt_safe
